@@ -88,6 +88,25 @@ func kvBuild(typ, id, payload, nodeID string) nodeenrollment.MessageWithId {
 	panic("kvmodel: unknown type " + typ)
 }
 
+// kvScribble overwrites a message the caller still owns after it was handed to Store: the back end must
+// have taken a snapshot, so this must never be visible to a later Load
+func kvScribble(m nodeenrollment.MessageWithId) {
+	const junk = "scribbled-by-caller-after-store"
+	switch t := m.(type) {
+	case *types.NodeInformation:
+		t.Id, t.RegistrationNonce, t.NodeId, t.WrappingKeyId = junk, []byte(junk), junk, junk
+	case *types.NodeCredentials:
+		t.Id, t.RegistrationNonce, t.WrappingKeyId = junk, []byte(junk), junk
+	case *types.RootCertificates:
+		t.Id, t.WrappingKeyId = junk, junk
+		if t.Current != nil {
+			t.Current.CertificateDer = []byte(junk)
+		}
+	case *types.ServerLedActivationToken:
+		t.Id, t.CreationTimeMarshaled, t.WrappingKeyId = junk, []byte(junk), junk
+	}
+}
+
 // kvBlank is the load / remove / list argument: only the ID is set
 func kvBlank(typ, id string) nodeenrollment.MessageWithId {
 	switch typ {
@@ -476,6 +495,20 @@ func (k *kvRunner) step(i int, op kvOp) {
 		if !ok {
 			return
 		}
+		if err == nil && i%3 == 0 {
+			// load into the very message that was just stored
+			want := kvPayload(msg)
+			if lerr, lok := k.call("Load", func() error { return k.st.Load(k.ctx, msg) }); lok {
+				if lerr != nil || kvPayload(msg) != want {
+					k.fail("load-into-stored-message:"+k.backend+":"+op.Type, fmt.Sprintf("Load into the message that was just stored returned %v / payload %q, want %q", kvErr(lerr), kvShort(kvPayload(msg)), want))
+					return
+				}
+				k.count("load-into-stored-message")
+			}
+		}
+		// the caller keeps using its message object: the stored value must not follow
+		kvScribble(msg)
+		k.count("caller-mutated-message-after-store")
 		if k.backend == world.StoreOnce && op.Type == kvNodeInfo && present {
 			k.count("store-duplicate-node-record")
 			var dv types.DuplicateRecordError
@@ -738,6 +771,9 @@ func kvRunHistory(plan [][]kvCIn) ([]porcupine.Operation, []kvClientFinding, err
 				case kvKStore:
 					m := args[j].(nodeenrollment.MessageWithId)
 					pv, stack = engine.Guard(func() { lerr = st.Store(ctx, m) })
+					if pv == nil {
+						kvScribble(m) // the client goes on using its own message object
+					}
 				case kvKLoad:
 					m := args[j].(nodeenrollment.MessageWithId)
 					pv, stack = engine.Guard(func() { lerr = st.Load(ctx, m) })
